@@ -275,11 +275,25 @@ func report(P *Program, v *Verifier, plan *Plan, prop, tier string, seed int, ob
 	undecided := 0
 	for _, ob := range failed {
 		if ob.Failure != "" {
-			// the verifier could not model the code: undecided, never an alarm
+			// the verifier cannot model the code as it now stands: every obligation of this function, discharged on the
+			// tree the check was built for, can no longer be generated. Reported once per function, against the
+			// obligation "the function is inside the modelled subset"; there is no counterexample to replay.
+			undecided++
 			if ob.Kind == "subset" {
 				fmt.Printf("UNDECIDED: property=%s %s: %s\n", prop, ob.Func, ob.Failure)
+				if kf := known.match(ob.Name); kf != nil {
+					fmt.Printf("KNOWN-FINDING: property=%s %s %s\n", prop, ob.Name, kf.What)
+					knownHit = append(knownHit, ob.Name)
+					continue
+				}
+				exit = 1
+				path := ""
+				if !noEvidence {
+					ob.Result.Outputs = map[string]string{"govc": ob.Failure}
+					path, _ = writeReplay(P, v, prop, ob)
+				}
+				fmt.Printf("VIOLATION property=%s replay=%s obligation=%s answer=undecided no-failing-input-found\n", prop, path, ob.Name)
 			}
-			undecided++
 			continue
 		}
 		if kf := known.match(ob.Name); kf != nil {
@@ -462,6 +476,15 @@ func registerNamedSorts(P *Program) {
 						func() {
 							defer func() { recover() }()
 							sortOf(tn.Type())
+							st := tn.Type().Underlying().(*types.Struct)
+							for i := 0; i < st.NumFields(); i++ {
+								if _, isMap := st.Field(i).Type().Underlying().(*types.Map); isMap {
+									func() {
+										defer func() { recover() }()
+										mapSortOf(st.Field(i).Type())
+									}()
+								}
+							}
 						}()
 					}
 				}
